@@ -65,6 +65,7 @@ def env_seed():
 # harness directory -> package directory (relative to /repo) it is overlaid into
 OVERLAY_PKGS = {
     "raft": "internal/raft",
+    "raftexport": "internal/raft",
     "logdb": "internal/logdb",
     "rsm": "internal/rsm",
     "transport": "internal/transport",
